@@ -25,7 +25,8 @@ Inductive op :=
 | OAppend (vs : list (list Z))    (* per owner of the handle: the targets passed for it, in order *)
 | OReplace (vs : list (list Z))
 | ODelete (ts : list Z)
-| OClear.
+| OClear
+| OAppendNone.                    (* Append() with no target at all *)
 
 Definition memz (x : Z) (l : list Z) : bool := existsb (Z.eqb x) l.
 Definition in_os (os : list Z) (f : option Z) : bool :=
@@ -165,6 +166,9 @@ Definition assoc_step (k : kind) (os : list Z) (s : st) (uo : bool * op) : st :=
   | OReplace vs => do_replace k u os vs s
   | ODelete ts => do_delete k u os ts s
   | OClear => do_clear k u os s
+  (* Append(): has one / belongs to delegate to Replace only `if len(values) > 0`; has many /
+     many2many: saveAssociation with no values touches nothing (struct handle) *)
+  | OAppendNone => s
   end.
 
 (* ---- what is stored: the links of owner o ---- *)
@@ -229,6 +233,7 @@ Definition spec_owner (k : kind) (o : op) (a v : list Z) : list Z :=
   | OReplace _ => v
   | ODelete ts => minus a ts
   | OClear => []
+  | OAppendNone => a
   end.
 Definition op_values (o : op) (n : nat) : list (list Z) :=
   match o with OAppend vs | OReplace vs => vs | _ => repeat [] n end.
